@@ -88,6 +88,13 @@ class FuncAnalysis:
                     self.pts[a.arg] = {("P", i, 0)}
                     if self._imm_elements(a.annotation):
                         self.imm_elems.add(i)
+            # a mutable default value is ONE object created when the function is defined and shared by every call that omits the argument
+            pos = fi.node.args.args
+            for a, d in list(zip(pos[len(pos) - len(fi.node.args.defaults):], fi.node.args.defaults)) + \
+                    [(a, d) for a, d in zip(fi.node.args.kwonlyargs, fi.node.args.kw_defaults) if d is not None]:
+                if isinstance(d, (ast.List, ast.Dict, ast.Set, ast.ListComp, ast.DictComp, ast.SetComp)) or \
+                        (isinstance(d, ast.Call) and isinstance(d.func, ast.Name) and d.func.id in ("list", "dict", "set", "bytearray", "defaultdict", "OrderedDict", "deque")):
+                    self.pts.setdefault(a.arg, set()).add(("G", f"<default value of {fi.qual}({a.arg})>", 0))
 
     # -- helpers ----------------------------------------------------------------------------
     @staticmethod
